@@ -1523,9 +1523,14 @@ impl<F: Send + 'static> Sampler<F> {
     pub fn abort(self) -> Result<(Option<anyhow::Error>, F)> {
         drop(self.commands);
         let result = self.main_thread.join();
+        // A chain reports its own failure (model construction, initialization, an
+        // unrecoverable error of the density) on the results channel. If the caller
+        // did not pick it up in `wait_timeout`, return the first one with the trace
+        // instead of reporting success.
+        let chain_error = self.results.try_iter().find_map(|result| result.err());
         match result {
             Err(payload) => std::panic::resume_unwind(payload),
-            Ok(Ok(val)) => Ok(val),
+            Ok(Ok((error, trace))) => Ok((error.or(chain_error), trace)),
             Ok(Err(err)) => Err(err),
         }
     }
